@@ -108,10 +108,11 @@ SITE_FUNCS = [(O + 'StripWhitespaceFilter._stripws_default', None), (O + 'StripW
               (O + 'StripWhitespaceFilter._stripws_identifierlist', None), (O + 'SpacesAroundOperatorsFilter._process', None),
               (RF + '_split_kwds', 'sites'), (RF + '_split_statements', 'sites'), (RF + '_process_where', 'sites'),
               (RF + '_process_parenthesis', 'sites'), (RF + '_process_values', 'sites'), (RF + 'process', 'sites'),
-              (AF + '_split_kwds', 'sites'), (AF + '_process_parenthesis', 'sites')]
+              (AF + '_split_kwds', 'sites'), (AF + '_process_parenthesis', 'sites'),
+              (O + 'StripWhitespaceFilter.process', 'body')]
 NOT_YET = [RF + '_process_identifierlist', RF + '_process_case', RF + '_process_function', RF + '_process_default',
            AF + '_process_statement', AF + '_process_identifierlist', AF + '_process_case', AF + '_process_default',
-           O + 'StripWhitespaceFilter.process', O + 'StripWhitespaceFilter._stripws']
+           O + 'StripWhitespaceFilter._stripws']
 
 
 def pure_helpers(rep):
